@@ -6,6 +6,7 @@ import (
 
 	"golang.org/x/tools/go/ssa"
 
+	"iocvet/internal/absint"
 	"iocvet/internal/core"
 )
 
@@ -73,11 +74,9 @@ func c03(c *core.Ctx, r *core.Report) {
 	} else {
 		ers.report(c, r, l.exposer, func(row string) string { return "C03.R6" }, econs, earlyFactoryRows)
 	}
-	for _, ci := range core.Calls(l.exposer) {
-		if core.IsInvoke(ci.Common(), c.Roles().SCRAddFactory) && len(ci.Common().Args) == 2 {
-			if lit := core.ClosureOf(ci.Common().Args[1]); lit != nil {
-				smallModelCheck(c, r, "C03.R6", econs, lit, int64(listLen(c)))
-			}
+	for _, ci := range addFactorySites(c, l) {
+		if lit := core.ClosureOf(ci.Common().Args[1]); lit != nil {
+			smallModelCheck(c, r, "C03.R6", econs, lit, int64(listLen(c)))
 		}
 	}
 	r.Exhaustive = und == "" && iund == "" && eund == ""
@@ -132,40 +131,75 @@ func c03Flags(c *core.Ctx, r *core.Report) {
 					if !isK || k.Value == nil || k.Value.String() != "true" {
 						ok2 = false
 					}
-					// the storing function registers a processor (appends to a slice field of the same owner)
-					appends := false
-					for _, bb := range st.Fn.Blocks {
-						for _, ii := range bb.Instrs {
-							if s2, isSt := ii.(*ssa.Store); isSt {
-								if call, isCall := s2.Val.(*ssa.Call); isCall {
-									if bi, isB := call.Common().Value.(*ssa.Builtin); isB && bi.Name() == "append" {
-										appends = true
-									}
-								}
-							}
-						}
-					}
-					if !appends {
-						ok2 = false
-					}
-					// set under a type test for InstantiationAware (or wider)
-					guarded := false
-					ia := c.Named("container", "InstantiationAwareComponentPostProcessor")
-					for _, g := range core.Guards(st.Instr.Block()) {
-						if ex, isEx := g.If.Cond.(*ssa.Extract); isEx && g.Branch {
-							if ta, isTA := ex.Tuple.(*ssa.TypeAssert); isTA && ia != nil && implementsIface(ia, ta.AssertedType) {
-								guarded = true
-							}
-						}
-					}
-					if !guarded {
-						ok2 = false
-					}
 				}
-				r.Check(ok2, "C03.R6", cons, c.Pos(stores[0].Instr.Pos()), fmt.Sprintf("the presence flag is only ever set to true (%d store(s)), on the registration path, under a type test that every SmartInstantiationAware processor passes", len(stores)))
+				// registering a processor that can hand out early references sets it (whatever helpers the
+				// registration is split into): interpret the registration method on such a processor
+				if why := flagSetByRegistration(c, fr.Name); why != "" {
+					r.Fail("C03.R6", cons+":registration", c.Pos(stores[0].Instr.Pos()), "registering a SmartInstantiationAware processor sets the presence flag: "+why)
+					continue
+				}
+				r.Check(ok2, "C03.R6", cons, c.Pos(stores[0].Instr.Pos()), fmt.Sprintf("the presence flag is only ever set to true (%d store(s)), and registering a SmartInstantiationAware processor sets it (interpreted)", len(stores)))
 			}
 		}
 	}
+}
+
+// flagSetByRegistration interprets the delegate's registration method on a processor that implements
+// SmartInstantiationAwareComponentPostProcessor (and everything that interface embeds) and reports why the bool field
+// `flag` of the delegate is not true afterwards ("" if it is).
+func flagSetByRegistration(c *core.Ctx, flag string) string {
+	bs, why := findBootstrap(c)
+	if bs == nil {
+		return why
+	}
+	smart := c.Named("container", "SmartInstantiationAwareBeanPostProcessor")
+	if smart == nil {
+		if m := c.Roles().SmartEarlyRef; m != nil {
+			if recv := m.Type().(*types.Signature).Recv(); recv != nil {
+				smart = core.NamedOf(recv.Type())
+			}
+		}
+	}
+	if smart == nil {
+		return "the SmartInstantiationAware interface was not found"
+	}
+	t := newTbl(c)
+	dlg := absint.NewTok("delegate", "delegate")
+	if st, ok := bs.recv.Underlying().(*types.Struct); ok {
+		z := absint.New(nil)
+		for i := 0; i < st.NumFields(); i++ {
+			switch st.Field(i).Type().Underlying().(type) {
+			case *types.Slice, *types.Basic, *types.Map:
+				dlg.Fields[st.Field(i).Name()] = z.ZeroOf(st.Field(i).Type())
+			}
+		}
+	}
+	p := absint.NewTok("P", "processor")
+	t.typeTest = func(v absint.Value, T types.Type) (bool, bool) {
+		if v != absint.Value(p) {
+			return false, false
+		}
+		if it, ok := T.Underlying().(*types.Interface); ok {
+			return types.Implements(smart, it), true
+		}
+		return false, true
+	}
+	ip := absint.New(t)
+	ip.IsLog, ip.InScope = core.IsLogCall, c.InScope
+	args := []absint.Value{dlg, p}
+	for k := 2; k < len(bs.register.Params); k++ {
+		args = append(args, absint.Str("name"))
+	}
+	out := ip.Run(bs.register, args, nil)
+	switch {
+	case out.Undecided != nil:
+		return "abstract interpretation left the model: " + out.Undecided.Msg
+	case out.Panic != nil:
+		return "registration panics: " + out.Panic.Msg
+	case dlg.Fields[flag] != absint.Value(absint.Bool(true)):
+		return fmt.Sprintf("after %s(P) the field %s is %s", core.FnName(bs.register), flag, absint.Show(dlg.Fields[flag]))
+	}
+	return ""
 }
 
 func isBoolType(fa *ssa.FieldAddr) bool {
